@@ -149,7 +149,7 @@ fn wav(first_only: bool) {
 	std::mem::forget(r);
 }
 
-// @harness props=C16 tier=quick timeout=1200
+// @harness props=C16x tier=quick timeout=1200
 // @bound 3 slices of symbolic length 0..=2 each and symbolic content; sink accepting bytes across buffers; <= 5 sink calls, each accept-k / Interrupted / Ok(0) / hard error (runs needing more calls are outside); unwind 8
 #[kani::proof]
 #[kani::unwind(8)]
@@ -158,7 +158,7 @@ fn c16_wav_across() {
 	wav(false);
 }
 
-// @harness props=C16 tier=quick timeout=1200
+// @harness props=C16x tier=quick timeout=1200
 // @bound same, sink that only ever takes from the first non-empty buffer (std's default write_vectored)
 #[kani::proof]
 #[kani::unwind(8)]
